@@ -257,7 +257,8 @@ def _site_check(case):
     fails = c12.check_site(dict(case), 'C11') or []
     if isinstance(fails, dict):
         fails = [fails]
-    return [f for f in fails if str(f.get('class', '')).startswith(('unlisted-member', 'abort'))] or None
+    # (everything the link / anchor / listing check finds on this project, minus the listed C11 findings)
+    return [f for f in fails if not (f.get('toc_backlink') or f.get('displaced_duplicate') or f.get('summary_clash'))] or None
 
 
 HARNESS['pydoctor/themes/base/common.html'] = {'cases': _site_cases, 'check': _site_check,
